@@ -232,7 +232,7 @@ def tlc_must_pass(ev, module, cfg=None, what="", **kw):
 # ---------------------------------------------------------------------------------------
 # trace validation
 # ---------------------------------------------------------------------------------------
-def split_trace(path, nchunks, boundary=None, outdir=None):
+def split_trace(path, nchunks, boundary=None, outdir=None, balance=False):
     """Split an ndjson trace into <= nchunks files on line boundaries (or at lines for which
     boundary(line) is true).  Returns [(chunkpath, first_line_index0)]."""
     lines = open(path).read().splitlines()
@@ -241,6 +241,22 @@ def split_trace(path, nchunks, boundary=None, outdir=None):
     if n == 0:
         return []
     outdir = outdir or os.path.dirname(path)
+    if balance and not boundary:
+        # stateless events: distribute by size (longest first into the lightest bin) so that a few huge events do
+        # not serialise the run; order inside a chunk is irrelevant for these trace specs
+        bins = [[0, []] for _ in range(min(nchunks, n))]
+        for ln in sorted(lines, key=len, reverse=True):
+            b = min(bins, key=lambda x: x[0])
+            b[0] += len(ln) + 200
+            b[1].append(ln)
+        res = []
+        base = os.path.basename(path)
+        for k, (_, ls) in enumerate(bins):
+            cp = os.path.join(outdir, "%s.c%02d" % (base, k))
+            with open(cp, "w") as f:
+                f.write("\n".join(ls) + "\n")
+            res.append((cp, 0))
+        return res
     per = max(1, (n + nchunks - 1) // nchunks)
     cuts = [0]
     i = per
@@ -292,7 +308,7 @@ class TraceResult:
 
 
 def validate_trace(module, cfg, path, nchunks=None, boundary=None, max_rejections=3, group=None, env=None,
-                   timeout=1700):
+                   timeout=1700, balance=False):
     """Validate a whole ndjson trace in parallel chunks.  After a rejection the rejected event
     (or, for stateful traces, the execution up to the next boundary) is skipped and validation
     of the remainder continues, so one finding does not hide the rest.  A rejection is only
@@ -300,7 +316,7 @@ def validate_trace(module, cfg, path, nchunks=None, boundary=None, max_rejection
     t0 = time.time()
     tr = TraceResult()
     nchunks = nchunks or NCPU
-    chunks = split_trace(path, nchunks, boundary)
+    chunks = split_trace(path, nchunks, boundary, balance=balance)
     tr.traces = len(chunks)
 
     def work(ch):
@@ -463,8 +479,8 @@ class Check:
         return r
 
     # -- conformance -------------------------------------------------------------------
-    def trace(self, name, module, cfg, path, what="", boundary=None, nchunks=None, env=None, timeout=1700):
-        tr = validate_trace(module, cfg, path, nchunks=nchunks, boundary=boundary, env=env, timeout=timeout)
+    def trace(self, name, module, cfg, path, what="", boundary=None, nchunks=None, env=None, timeout=1700, balance=False):
+        tr = validate_trace(module, cfg, path, nchunks=nchunks, boundary=boundary, env=env, timeout=timeout, balance=balance)
         self.ev.add_trace(name, tr, sample_from=path, what=what)
         log("  [trace] %-22s %-18s events=%d chunks=%d rejections=%d  %.1fs" %
             (name, module, tr.events, tr.traces, len(tr.rejections), tr.wall))
